@@ -104,14 +104,20 @@ def gExchange (engine : Engine) (len : Nat) : G Exchange := do
       | _ => do let s ← gSizes len 200; pure (Transport.sourceSplit id s)
   pure ⟨chs, tr⟩
 
-def gValveCase : G (Config × Spec.State) := do
-  let engine ← gEngine
+def gValveCaseWith (fixed : Option (Engine × Gather)) : G (Config × Spec.State) := do
+  let engine0 ← gEngine
+  let engine := match fixed with
+    | some (e, _) => e
+    | none => engine0
   let info ← if engine == .goldSrc true then gGoldInfo else gSourceInfo engine
   let ship := engine == Engine.new 2400
   let np ← G.oneOf [0, 1, 2, 3, 5, 12, 40]
   let players ← G.listOf np (gPlayer ship)
   let rules ← gRules engine
-  let gather : Gather := ⟨← gToggle, ← gToggle, ← G.chance 3 4⟩
+  let gather0 : Gather := ⟨← gToggle, ← gToggle, ← G.chance 3 4⟩
+  let gather := match fixed with
+    | some (_, g) => g
+    | none => gather0
   let st : Spec.State := ⟨info, players, rules⟩
   let addr ← G.oneOf ["127.0.0.1:27015", "a", "[::1]:1"]
   let cfg0 : Config := ⟨engine, gather, ← G.bool, asciiBytes addr, ⟨[], .single⟩, ⟨[], .single⟩, ⟨[], .single⟩⟩
@@ -119,6 +125,8 @@ def gValveCase : G (Config × Spec.State) := do
   let xp ← gExchange engine (encPlayers players).length
   let xr ← gExchange engine (encRules rules).length
   pure ({ cfg0 with info := xi, players := xp, rules := xr }, st)
+
+def gValveCase : G (Config × Spec.State) := gValveCaseWith none
 
 def showEngineArg : Engine → String
   | .source none => "S:-"
@@ -136,10 +144,10 @@ def showGatherArg (g : Gather) : String :=
 def showScript (dgs : List Bytes) : String :=
   if dgs.isEmpty then "." else String.intercalate "," (dgs.map hexOf)
 
-/-- `gen valve <seed> <n>` -/
-def genValve (seed n : Nat) : List String :=
+/-- `gen valve <seed> <n>` / `gen valvefor <seed> <n> <engine> <gather>` -/
+def genValveWith (fixed : Option (Engine × Gather)) (seed n : Nat) : List String :=
   (List.range n).map fun k =>
-    let (cfg, st) := G.run gValveCase (seed * 1000003 + k)
+    let (cfg, st) := G.run (gValveCaseWith fixed) (seed * 1000003 + k)
     let port := 27015 + k % 3
     let retries := k % 3
     let line := s!"v{seed}_{k} valve {port} {showEngineArg cfg.engine} {showGatherArg cfg.gather} {retries} {showScript (Spec.script cfg st)}"
@@ -150,4 +158,8 @@ def genValve (seed n : Nat) : List String :=
       ++ " ## SEG " ++ String.intercalate "," ((Spec.segments cfg st).map toString)
       ++ " ## CH " ++ String.intercalate "," [nch cfg.info, nch cfg.players, nch cfg.rules]
 
+end Gd.Run
+
+namespace Gd.Run
+def genValve (seed n : Nat) : List String := genValveWith none seed n
 end Gd.Run
